@@ -157,7 +157,6 @@ struct Env {
   AsyncFileAppender& appender = shared_appender();
   LogStreamBuffer buf;
   std::vector<struct ::iovec> iov;
-  std::string got;
   explicit Env(size_t ps) {
     alloc.ps = ps;
     alloc.cache = &block_cache(ps);
@@ -219,20 +218,25 @@ void check_and_discard(Env& e, const std::string& desc, Built& b, size_t others_
   if (b.entry.size != b.len) vfz::fail(desc, "entry.size == %zu after streaming %zu bytes", b.entry.size, b.len);
   e.iov.clear();
   b.entry.append_to_iovec(ps, e.iov);
-  // (1) bytes
-  e.got.clear();
+  // (1) bytes: the non-empty segments, in order, are exactly the streamed bytes
+  size_t carried = 0;
+  const char* want = pool().data() + b.off;
   for (auto& v : e.iov) {
     if (v.iov_len > ps) vfz::fail(desc, "iovec of %zu bytes with page size %zu (entry of %zu bytes)", v.iov_len, ps, b.len);
-    if (v.iov_len) e.got.append((const char*)v.iov_base, v.iov_len);
+    if (v.iov_len == 0) continue;
+    if (carried + v.iov_len > b.len)
+      vfz::fail(desc, "entry of %zu bytes (page %zu): iovecs carry more than that (%zu bytes after %zu segments)", b.len, ps, carried + v.iov_len,
+                (size_t)(&v - e.iov.data()) + 1);
+    if (memcmp(v.iov_base, want + carried, v.iov_len) != 0) {
+      size_t i = 0;
+      while (((const char*)v.iov_base)[i] == want[carried + i]) i++;
+      vfz::fail(desc, "entry of %zu bytes (page %zu): iovec bytes differ from the streamed bytes first at offset %zu (segment %zu, byte %zu)",
+                b.len, ps, carried + i, (size_t)(&v - e.iov.data()), i);
+    }
+    carried += v.iov_len;
   }
-  if (e.got.size() != b.len)
-    vfz::fail(desc, "entry of %zu bytes (page %zu): iovecs carry %zu bytes in %zu segments", b.len, ps, e.got.size(), e.iov.size());
-  if (memcmp(e.got.data(), pool().data() + b.off, b.len) != 0) {
-    size_t i = 0;
-    while (e.got[i] == pool()[b.off + i]) i++;
-    vfz::fail(desc, "entry of %zu bytes (page %zu): iovec bytes differ from the streamed bytes first at offset %zu (page %zu, byte %zu)",
-              b.len, ps, i, i / ps, i % ps);
-  }
+  if (carried != b.len)
+    vfz::fail(desc, "entry of %zu bytes (page %zu): iovecs carry %zu bytes in %zu segments", b.len, ps, carried, e.iov.size());
   // (2) pages: iov_base multiset == pages handed out for this entry
   std::vector<void*> bases;
   for (auto& v : e.iov) bases.push_back(v.iov_base);
